@@ -482,7 +482,11 @@ def inline_nonrec(w, f, depth=10):
     return g
 
 
-def unfold(w, formulas, fuel=2, facts=None, allclass_budget=0):
+def _is_ctor(t):
+    return z3.is_app(t) and t.decl().kind() == z3.Z3_OP_DT_CONSTRUCTOR
+
+
+def unfold(w, formulas, fuel=2, facts=None, allclass_budget=0, facts_fuel=3):
     """Definitional equations  F(t) == body[t]  for the spec-function applications occurring in
     `formulas`.  Recursive spec functions are unfolded `fuel` levels; the lazily defined child
     combinators (F__mapc …, wf) as GUARDED instances  is_C(t) -> F__mapc(t) == C(…)  for every
@@ -536,7 +540,10 @@ def unfold(w, formulas, fuel=2, facts=None, allclass_budget=0):
                     if c is not None:
                         known[a_.get_id()] = c
                         changed = True
-    frontier = [(a, 0) for a in _collect(w, list(formulas) + list(facts or []), visited, cands)]
+    # the goal gets the full fuel; the assumptions at most `facts_fuel` levels
+    frontier = [(a, 0) for a in _collect(w, list(formulas), visited, cands)]
+    f0 = max(0, fuel - facts_fuel)
+    frontier += [(a, f0) for a in _collect(w, list(facts or []), visited, cands)]
     budget = 30000
     while budget > 0:
         while frontier and budget > 0:
@@ -545,7 +552,8 @@ def unfold(w, formulas, fuel=2, facts=None, allclass_budget=0):
             n = app.decl().name()
             if n in w.lazy:
                 t = app.arg(0)
-                if lvl > fuel:
+                ctor = _is_ctor(t)      # structural recursion on a concrete constructor: free
+                if lvl > fuel and not ctor:
                     continue
                 if class_of(t) == "<nonnode>":
                     kind_, sf_ = w.lazy[n]
@@ -578,12 +586,15 @@ def unfold(w, formulas, fuel=2, facts=None, allclass_budget=0):
                     elif app.sort() == S.Py:
                         links.append((app, inst))
                     eqs.append(eq)
-                    frontier.extend((a, lvl + 1) for a in _collect(w, [inst], visited, None))
+                    frontier.extend((a, lvl if ctor else lvl + 1)
+                                    for a in _collect(w, [inst], visited, None))
             else:
                 if app.get_id() in done:
                     continue
                 recursive = w.defs[n][3]
-                if recursive and lvl >= fuel:
+                concrete = recursive and all(
+                    _is_ctor(c) for c in app.children() if c.sort() in (S.Py, S.PyList))
+                if recursive and lvl >= fuel and not concrete:
                     continue
                 done.add(app.get_id())
                 inst = specialise(_inst(w, app, None), app.children())
@@ -591,7 +602,7 @@ def unfold(w, formulas, fuel=2, facts=None, allclass_budget=0):
                 eqs.append(app == inst)
                 if app.sort() == S.Py:
                     links.append((app, inst))
-                nl = lvl + 1 if recursive else lvl
+                nl = lvl + 1 if (recursive and not concrete) else lvl
                 frontier.extend((a, nl) for a in _collect(w, [inst], visited, cands))
         if not pending:
             break
